@@ -188,6 +188,9 @@ def run_e2e_harness(exe, gt, queries, start_at="c17p::main"):
     return rc, rows, se
 
 
+PROGRAM = "puppets/c17 (c17p + libc17dep.so, rustc 1.89 -g)"
+
+
 class E2E:
     def __init__(self, gt):
         self.gt = gt
@@ -203,6 +206,11 @@ class E2E:
         self.sym_by_key = {}
         for i, s in enumerate(self.syms):
             self.sym_by_key.setdefault((s["addr"], s["forms"][-1]), []).append(i)
+
+    def known_file(self, path):
+        comps = c17_gt.path_components(path or "")
+        key = "/" + "/".join(comps[1:]) if comps and comps[0] == "/" else "/".join(comps)
+        return self.file_by_text.get(key)
 
     def fn_at(self, obj, addr):
         return [i for i, f in enumerate(self.live) if f["lo"] <= addr < f["hi"] and (obj is None or f["obj"] == obj)]
@@ -224,15 +232,18 @@ def compare_fn(rep, e, needle, phase, row, must, may, stats):
     script = {"leg": "e2e", "kind": "fn", "needle": needle, "phase": phase}
     act = ACTION["fn"]
     if "panic" in row:
-        rep.mismatch("panic", act, needle=needle, expected="no panic", actual=row["panic"], script=script)
+        rep.mismatch("panic", act, needle=needle, expected="no panic", actual=row["panic"], program=PROGRAM, script=script)
         return
     if not row.get("ok") and "no suitable place" not in row.get("err", ""):
-        rep.mismatch("error", act, needle=needle, expected="a result set", actual=row.get("err"), script=script)
+        rep.mismatch("error", act, needle=needle, expected="a result set", actual=row.get("err"), program=PROGRAM, script=script)
         return
     selected, stray = set(), []
     for b in row["bps"]:
         obj = e.obj_index(b["obj"]) if phase == "running" else None
-        c = e.fn_at(obj, b["faddr"]) if obj != -1 else []
+        if obj == -1 or (phase == "static" and not e.fn_at(None, b["faddr"]) and not e.known_file(b["file"])):
+            stats["out_of_scope_breakpoints"] += 1      # a system library (functions not in the compared universe)
+            continue
+        c = e.fn_at(obj, b["faddr"])
         if not c:
             stray.append(b)
         elif len(c) == 1 or phase == "running":
@@ -247,7 +258,7 @@ def compare_fn(rep, e, needle, phase, row, must, may, stats):
         rep.mismatch("not_a_function", act, needle=needle, cause=cause, phase=phase,
                      expected="every breakpoint inside a function the needle denotes",
                      actual=[{"faddr": b["faddr"], "obj": b["obj"], "file": b["file"], "line": b["line"]} for b in stray[:5]],
-                     n=len(stray), dead_dies=sorted({d["path"] for d in dead})[:5], script=script)
+                     n=len(stray), dead_dies=sorted({d["path"] for d in dead})[:5], program=PROGRAM, script=script)
     missing = sorted(set(must) - selected)
     extra = sorted(selected - set(may))
     if missing:
@@ -259,12 +270,12 @@ def compare_fn(rep, e, needle, phase, row, must, may, stats):
         for cause, ids in by_cause.items():
             rep.mismatch("missed_match", act, needle=needle, cause=cause, phase=phase,
                          expected=[f"{e.fpath(i)} @{e.live[i]['obj']}:{e.live[i]['lo']:#x}" for i in ids[:8]],
-                         actual=f"{len(selected)} function(s) selected, these {len(ids)} not among them", script=script)
+                         actual=f"{len(selected)} function(s) selected, these {len(ids)} not among them", program=PROGRAM, script=script)
     if extra:
         partial = [i for i in extra if e.fpath(i).endswith(needle)]
         rep.mismatch("partial_component_match" if partial else "foreign_match", act, needle=needle, phase=phase,
                      expected=f"only functions among the {len(may)} the needle may denote",
-                     actual=[f"{e.fpath(i)} @{e.live[i]['obj']}:{e.live[i]['lo']:#x}" for i in extra[:8]], script=script)
+                     actual=[f"{e.fpath(i)} @{e.live[i]['obj']}:{e.live[i]['lo']:#x}" for i in extra[:8]], program=PROGRAM, script=script)
     if row.get("left"):
         stats["leftover_breakpoints"] += 1
     stats["fn_queries"] += 1
@@ -279,34 +290,35 @@ def compare_line(rep, e, needle, phase, row, must, may, stats):
     script = {"leg": "e2e", "kind": "line", "needle": needle, "phase": phase}
     act = ACTION["line"]
     if "panic" in row:
-        rep.mismatch("panic", act, needle=needle, expected="no panic", actual=row["panic"], script=script)
+        rep.mismatch("panic", act, needle=needle, expected="no panic", actual=row["panic"], program=PROGRAM, script=script)
         return
     if not row.get("ok") and "no suitable place" not in row.get("err", ""):
-        rep.mismatch("error", act, needle=needle, expected="a result set", actual=row.get("err"), script=script)
+        rep.mismatch("error", act, needle=needle, expected="a result set", actual=row.get("err"), program=PROGRAM, script=script)
         return
     selected, unknown = set(), []
     for b in row["bps"]:
-        comps = c17_gt.path_components(b["file"] or "")
-        key = "/" + "/".join(comps[1:]) if comps and comps[0] == "/" else "/".join(comps)
-        if key in e.file_by_text:
-            selected.add(e.file_by_text[key])
-        else:
+        fi = e.known_file(b["file"])
+        if fi is not None:
+            selected.add(fi)
+        elif phase == "running" and e.obj_index(b["obj"]) >= 0:
             unknown.append(b["file"])
+        else:
+            stats["out_of_scope_breakpoints"] += 1      # a system library
     if unknown:
         rep.mismatch("unknown_file", act, needle=needle, phase=phase, expected="a file of some line table",
-                     actual=sorted(set(unknown))[:5], script=script)
+                     actual=sorted(set(unknown))[:5], program=PROGRAM, script=script)
     need = [i for i in must if e.files[i]["has_line3"]]
     missing = sorted(set(need) - selected)
     extra = sorted(selected - set(may))
     if missing:
         rep.mismatch("missed_match", act, needle=needle, cause="none", phase=phase,
                      expected=[e.files[i]["path"] for i in missing[:8]],
-                     actual=[e.files[i]["path"] for i in sorted(selected)[:8]], script=script)
+                     actual=[e.files[i]["path"] for i in sorted(selected)[:8]], program=PROGRAM, script=script)
     if extra:
         partial = [i for i in extra if e.files[i]["path"].endswith(needle)]
         rep.mismatch("partial_component_match" if partial else "foreign_match", act, needle=needle, phase=phase,
                      expected=f"only files among the {len(may)} the needle may denote",
-                     actual=[e.files[i]["path"] for i in extra[:8]], script=script)
+                     actual=[e.files[i]["path"] for i in extra[:8]], program=PROGRAM, script=script)
     stats["line_queries"] += 1
     if need:
         stats["line_nonempty"] += 1
@@ -319,10 +331,10 @@ def compare_sym(rep, e, pat, phase, row, must, may, stats):
     script = {"leg": "e2e", "kind": "sym", "pat": pat, "regex": rx, "phase": phase}
     act = ACTION["sym"]
     if "panic" in row:
-        rep.mismatch("panic", act, needle=rx, expected="no panic", actual=row["panic"], script=script)
+        rep.mismatch("panic", act, needle=rx, expected="no panic", actual=row["panic"], program=PROGRAM, script=script)
         return
     if not row.get("ok"):
-        rep.mismatch("error", act, needle=rx, expected="a result set", actual=row.get("err"), script=script)
+        rep.mismatch("error", act, needle=rx, expected="a result set", actual=row.get("err"), program=PROGRAM, script=script)
         return
     got, foreign = set(), []
     for s in row["syms"]:
@@ -346,7 +358,7 @@ def compare_sym(rep, e, pat, phase, row, must, may, stats):
     extra = [i for i in got if key(i) not in mayk]
     if foreign:
         rep.mismatch("symbol_foreign", act, needle=rx, phase=phase, expected="entries of some .symtab",
-                     actual=foreign[:5], script=script)
+                     actual=foreign[:5], program=PROGRAM, script=script)
     if missing:
         by_cause = {}
         for i in missing:
@@ -356,10 +368,10 @@ def compare_sym(rep, e, pat, phase, row, must, may, stats):
         for cause, ids in by_cause.items():
             rep.mismatch("symbol_missed", act, needle=rx, cause=cause, phase=phase,
                          expected=[f"{e.syms[i]['forms'][-1]} @{e.syms[i]['obj']}:{e.syms[i]['addr']:#x}" for i in ids[:8]],
-                         actual=f"{len(row['syms'])} symbol(s) listed, these {len(ids)} not among them", script=script)
+                         actual=f"{len(row['syms'])} symbol(s) listed, these {len(ids)} not among them", program=PROGRAM, script=script)
     if extra:
         rep.mismatch("symbol_foreign", act, needle=rx, phase=phase, expected="only symbols whose name matches",
-                     actual=[e.syms[i]["forms"][-1] for i in extra[:8]], script=script)
+                     actual=[e.syms[i]["forms"][-1] for i in extra[:8]], program=PROGRAM, script=script)
     stats["sym_queries"] += 1
     if must:
         stats["sym_nonempty"] += 1
